@@ -354,12 +354,12 @@ impl Engine {
                 let b = dec_bundle(r);
                 self.ledger.give(&b.items, &sizes, out);
                 let buf = &mut self.cmd[cb];
-                if b.kind == 0 {
+                if b.kind == 0 || b.kind >= 10 {
                     let types: Vec<u64> = b.items.iter().map(|x| x.0).collect();
                     let vals: Vec<u64> = b.items.iter().map(|x| x.1).collect();
                     match h {
-                        None => dispatch_tuple(&types, CmdSpawnV(buf, &vals)).expect("tuple type not in catalogue"),
-                        Some(h) => dispatch_tuple(&types, CmdInsertV(buf, h, &vals)).expect("tuple type not in catalogue"),
+                        None => crate::derived::dispatch_bundle(b.kind, &types, CmdSpawnV(buf, &vals)).expect("tuple type not in catalogue"),
+                        Some(h) => crate::derived::dispatch_bundle(b.kind, &types, CmdInsertV(buf, h, &vals)).expect("tuple type not in catalogue"),
                     }
                 } else {
                     let mut eb = builder_from(&b.items);
